@@ -28,6 +28,7 @@ const (
 	kSleepPanic
 	kGate
 	kGatePanic
+	kPusher // a task that is itself a producer: its Start pushes a child task
 )
 
 type pval struct{ ID int }
@@ -91,6 +92,10 @@ func (t *simTask) Start() {
 		w.raised = append(w.raised, t.pv)
 		w.gatePanics++
 		panic(t.pv)
+	case kPusher:
+		simrt.Probe("task_pushes_a_task")
+		child := w.newTask(kRet, nil)
+		w.push(child, simrt.Choose("pusher.lane", w.lanes), fmt.Sprintf("task%d", t.id))
 	}
 }
 
@@ -337,7 +342,7 @@ func (w *world) main() {
 			case panicky == 1:
 				kind = []int{kRet, kSleep, kPanic, kSleepPanic}[ch("task.kind", 4)]
 			default:
-				kind = []int{kRet, kSleep}[ch("task.kind", 2)]
+				kind = []int{kRet, kSleep, kPusher}[ch("task.kind", 3)]
 			}
 			t := w.newTask(kind, nil)
 			mine = append(mine, t)
@@ -424,8 +429,8 @@ func (w *world) main() {
 	if w.live() {
 		// C08 head-of-line: an idle worker exists, so nothing accepted may wait
 		if pinnedRunning < w.lanes {
-			for _, t := range load {
-				if t.returned && t.pushErr == nil && t.startCount == 0 {
+			for _, t := range w.tasks {
+				if t.kind != kGate && t.kind != kGatePanic && t.returned && t.pushErr == nil && t.startCount == 0 {
 					simrt.Probe("hol_checked")
 					w.violate("C08", "head-of-line", fmt.Sprintf("task %d accepted on lane %d is not started while only %d of %d workers are busy", t.id, t.lane, pinnedRunning, w.lanes), "head-of-line")
 					break
